@@ -423,6 +423,18 @@ func (v *FnVerifier) runRoot(fn *ssa.Function, fc *FuncContract) {
 		return
 	}
 	v.flushPending()
+	// ---- ghost assignments made at return (`sets G = expr`)
+	for i := range f.exits {
+		for _, cl := range fc.Of("sets") {
+			env := v.exitEnv(fc, fn, f.exits[i])
+			g, ok := v.ghost(f.exits[i].state, cl.Site)
+			if !ok {
+				panic(specErr{"sets: " + cl.Site + " is not a ghost"})
+			}
+			val := v.ctx.Define("G:"+cl.Site, v.coerce(env.term(cl.E), g.Sort))
+			f.exits[i].state = f.exits[i].state.with("G:"+cl.Site, val)
+		}
+	}
 	// ---- ensures at every return
 	var exitReach []Term
 	for _, ex := range f.exits {
